@@ -57,18 +57,13 @@ Proof.
   destruct a; simpl in *; try discriminate; reflexivity.
 Qed.
 
-Lemma op_not_W t : is_sp_op t = true -> tt_is t T_Whitespace = false.
+Lemma op_not_W t : is_sp_op t = true -> is_ws t = false.
 Proof.
-  destruct t as [ty v|c v k]; simpl; [|reflexivity]. intros H.
-  destruct (ttype_eqb ty T_Whitespace) eqn:E; [|reflexivity].
-  apply ttype_eqb_eq in E. subst ty. discriminate.
+  intros H. destruct (is_ws t) eqn:E; [|reflexivity]. rewrite (is_ws_not_op t E) in H. discriminate.
 Qed.
 
-Lemma W_is_ws t : tt_is t T_Whitespace = true -> is_ws t = true.
-Proof.
-  destruct t as [ty v|c v k]; simpl; [|discriminate]. intros E.
-  apply ttype_eqb_eq in E. subst ty. reflexivity.
-Qed.
+Lemma W_is_ws t : is_ws t = true -> is_ws t = true.
+Proof. auto. Qed.
 
 Lemma skip_ff n : skip_matcher false false n = true.
 Proof. reflexivity. Qed.
@@ -114,25 +109,25 @@ Qed.
 
 (* ---- one iteration --------------------------------------------------------------------------- *)
 Definition pok (done : list node) : bool :=
-  match rev done with [] => true | p :: _ => tt_is p T_Whitespace end.
+  match rev done with [] => true | p :: _ => is_ws p end.
 
 Lemma sp_prev_part D op P :
   match token_prev false false (length D) (D ++ op :: P) with
   | Some (_, prev_) =>
-      if negb (tt_is prev_ T_Whitespace)
+      if negb (is_ws prev_)
       then (insert_before (length D) sp_token (D ++ op :: P), S (length D)) else (D ++ op :: P, length D)
   | None => (D ++ op :: P, length D)
   end = if pok D then (D ++ op :: P, length D) else (D ++ sp_token :: op :: P, S (length D)).
 Proof.
   unfold token_prev, find_before. rewrite firstn_length_app, find_last_aux_all.
   unfold pok. destruct (rev D) as [|p r]; [reflexivity|].
-  destruct (tt_is p T_Whitespace); simpl; [reflexivity|].
+  destruct (is_ws p); simpl; [reflexivity|].
   unfold insert_before. rewrite <- (Nat.add_0_r (length D)) at 1. rewrite insert_at_app. reflexivity.
 Qed.
 
 Lemma sp_step_spec D op post :
   sp_step (length D) (D ++ op :: post) =
-  let after := match post with x :: _ => negb (tt_is x T_Whitespace) | [] => false end in
+  let after := match post with x :: _ => negb (is_ws x) | [] => false end in
   let post1 := if after then place_sp post else post in
   if pok D then (D ++ op :: post1, length D) else (D ++ sp_token :: op :: post1, S (length D)).
 Proof.
@@ -146,7 +141,7 @@ Proof.
   rewrite Hn. clear Hn.
   destruct post as [|x post']; cbv zeta.
   - apply sp_prev_part.
-  - destruct (negb (tt_is x T_Whitespace)).
+  - destruct (negb (is_ws x)).
     + rewrite insert_after_spec. apply sp_prev_part.
     + apply sp_prev_part.
 Qed.
@@ -169,9 +164,9 @@ Qed.
 
 (* over a stretch without operators and with nothing pending, the pass is the identity *)
 Definition pok_after (p : bool) (l : list node) : bool :=
-  match rev l with [] => p | x :: _ => tt_is x T_Whitespace end.
+  match rev l with [] => p | x :: _ => is_ws x end.
 
-Lemma pok_after_cons p t l : pok_after p (t :: l) = pok_after (tt_is t T_Whitespace) l.
+Lemma pok_after_cons p t l : pok_after p (t :: l) = pok_after (is_ws t) l.
 Proof.
   unfold pok_after. simpl. destruct (rev l) as [|x r] eqn:E; simpl; reflexivity.
 Qed.
@@ -191,7 +186,7 @@ Proof.
   unfold pok, pok_after. rewrite rev_app_distr. destruct (rev skipped); reflexivity.
 Qed.
 
-Lemma pok_snoc D x : pok (D ++ [x]) = tt_is x T_Whitespace.
+Lemma pok_snoc D x : pok (D ++ [x]) = is_ws x.
 Proof. unfold pok. rewrite rev_app_distr. reflexivity. Qed.
 
 Lemma sp_pass_nop_nil p : sp_pass p false [] = [].
@@ -232,7 +227,7 @@ Proof.
     replace (length done + length sk) with (length (done ++ sk)) by (rewrite app_length; reflexivity).
     set (D := done ++ sk).
     rewrite sp_step_spec. cbv zeta.
-    set (after := match post with x :: _ => negb (tt_is x T_Whitespace) | [] => false end).
+    set (after := match post with x :: _ => negb (is_ws x) | [] => false end).
     set (post1 := if after then place_sp post else post).
     assert (Hc1 : count_ops post1 < f).
     { assert (count_ops post1 = count_ops post).
@@ -383,11 +378,11 @@ Proof.
 Qed.
 
 Lemma head_after r p :
-  match sp_pass p (match r with x :: _ => negb (tt_is x T_Whitespace) | [] => false end) r with
+  match sp_pass p (match r with x :: _ => negb (is_ws x) | [] => false end) r with
   | [] => true | h :: _ => is_ws h end = true.
 Proof.
   apply head_ws. destruct r as [|x r']; [right; exact I|].
-  destruct (tt_is x T_Whitespace) eqn:E; [right; apply W_is_ws, E | left; reflexivity].
+  destruct (is_ws x) eqn:E; [right; reflexivity | left; reflexivity].
 Qed.
 
 Lemma ops_ok_pass : forall l p pending, ops_ok p (sp_pass p pending l) = true.
@@ -396,11 +391,11 @@ Proof.
   - destruct pending; reflexivity.
   - cbn [sp_pass].
     assert (Hop : is_sp_op t = true -> forall after',
-              after' = match r with x :: _ => negb (tt_is x T_Whitespace) | [] => false end ->
+              after' = match r with x :: _ => negb (is_ws x) | [] => false end ->
               ops_ok true (t :: sp_pass false after' r) = true).
     { intros Ho after' ->. cbn [ops_ok]. rewrite Ho, (op_not_W t Ho), IH. cbn [andb].
       rewrite andb_true_r. apply head_after. }
-    assert (Hnop : is_sp_op t = false -> forall q pend, ops_ok q (t :: sp_pass (tt_is t T_Whitespace) pend r) = true).
+    assert (Hnop : is_sp_op t = false -> forall q pend, ops_ok q (t :: sp_pass (is_ws t) pend r) = true).
     { intros Ho q pend. cbn [ops_ok]. rewrite Ho, IH. reflexivity. }
     assert (Hsp : forall X, ops_ok true X = true -> forall q, ops_ok q (sp_token :: X) = true).
     { intros X HX q. cbn [ops_ok]. exact HX. }
@@ -440,3 +435,50 @@ Qed.
 Theorem spaces_nf : forall n n', spaces n = Ok n' -> sp_nf n' = true.
 Proof. intros [ty v|c v kids] n' H; [discriminate|]. eapply sp_process_nf, H. Qed.
 Print Assumptions spaces_nf.
+
+(* ================================================================================================
+   idempotence (tree level).  Holds since the filter tests `is_whitespace` (a Newline next to an operator counts as
+   white space): before that `fix:` commit in /repo every run inserted another blank after `=` in `a =<LF>b`.
+   ================================================================================================ *)
+Lemma sp_pass_fixed : forall l p, ops_ok p l = true -> sp_pass p false l = l.
+Proof.
+  induction l as [|t r IH]; intros p H; [reflexivity|].
+  cbn [sp_pass ops_ok andb app] in *. apply andb_true_iff in H. destruct H as [H1 H2].
+  destruct (is_sp_op t) eqn:Eo.
+  - apply andb_true_iff in H1. destruct H1 as [Hp Hn]. rewrite Hp.
+    rewrite (op_not_W t Eo) in H2.
+    assert (Ea : match r with x :: _ => negb (is_ws x) | [] => false end = false).
+    { destruct r as [|x r']; [reflexivity|]. rewrite Hn. reflexivity. }
+    rewrite Ea. cbn [app]. f_equal. apply IH, H2.
+  - f_equal. apply IH, H2.
+Qed.
+
+Theorem sp_fun_idem l : sp_fun (sp_fun l) = sp_fun l.
+Proof. unfold sp_fun. apply sp_pass_fixed, ops_ok_pass. Qed.
+
+Lemma sp_process_fixed : forall n, sp_nf n = true -> sp_process n = Ok n.
+Proof.
+  induction n as [ty v | c v kids IH] using node_ind'; intros H; [reflexivity|].
+  cbn [sp_nf] in H. apply andb_true_iff in H. destruct H as [H1 H2].
+  cbn [sp_process].
+  assert (E : mapM (fun k => if is_group k then sp_process k else Ok k) kids = Ok kids).
+  { clear H1. induction kids as [|k kids IHk]; [reflexivity|].
+    cbn [forallb] in H2. apply andb_true_iff in H2. destruct H2 as [Hk Hr].
+    inversion IH as [|? ? IHk0 IHr]; subst. cbn [mapM].
+    assert (Ek : (if is_group k then sp_process k else Ok k) = Ok k)
+      by (destruct (is_group k); [apply IHk0, Hk | reflexivity]).
+    rewrite Ek. cbn [bind]. rewrite (IHk IHr Hr). reflexivity. }
+  rewrite E. cbn [bind]. rewrite sp_list_eq. cbn [bind]. unfold sp_fun. rewrite (sp_pass_fixed _ _ H1). reflexivity.
+Qed.
+
+(* running the filter on its own result changes nothing *)
+Theorem spaces_idem : forall n n', spaces n = Ok n' -> spaces n' = Ok n'.
+Proof.
+  intros n n' H. pose proof (spaces_nf n n' H) as Hnf.
+  destruct n as [ty v|c v kids]; [discriminate|]. cbn [spaces] in H.
+  destruct n' as [ty' v'|c' v' kids'].
+  - cbn [sp_process] in H. destruct (mapM _ kids) as [k1|]; cbn [bind] in H; [|discriminate].
+    destruct (sp_list k1); cbn [bind] in H; discriminate.
+  - cbn [spaces]. apply sp_process_fixed, Hnf.
+Qed.
+Print Assumptions spaces_idem.
